@@ -2063,6 +2063,7 @@ impl Collection {
 
     /// Gets the value of a user-defined extension key.
     pub fn get_extension(&self, key: &str) -> Option<FieldValue> {
+        anda_db_utils::verif_wait!("ext:metadata.read", || !self.metadata.is_locked_exclusive());
         self.metadata.read().extensions.get(key).cloned()
     }
 
@@ -2088,6 +2089,7 @@ impl Collection {
             );
             return;
         }
+        anda_db_utils::verif_wait!("ext:metadata.write", || !self.metadata.is_locked());
         let mut meta = self.metadata.write();
         if let Err(err) = self.ensure_mutable() {
             log::warn!(
@@ -2143,6 +2145,7 @@ impl Collection {
     where
         F: FnOnce(Option<&FieldValue>) -> Option<FieldValue>,
     {
+        anda_db_utils::verif_wait!("ext:metadata.write", || !self.metadata.is_locked());
         let mut meta = self.metadata.write();
         if self.ensure_mutable().is_err() {
             return None;
@@ -2172,6 +2175,7 @@ impl Collection {
         F: FnOnce(Option<T>) -> Option<T>,
         T: Serialize + DeserializeOwned,
     {
+        anda_db_utils::verif_wait!("ext:metadata.write", || !self.metadata.is_locked());
         let mut meta = self.metadata.write();
         if self.ensure_mutable().is_err() {
             return None;
@@ -2263,6 +2267,7 @@ impl Collection {
     where
         F: FnOnce(&BTreeMap<String, FieldValue>) -> R,
     {
+        anda_db_utils::verif_wait!("ext:metadata.read", || !self.metadata.is_locked_exclusive());
         f(&self.metadata.read().extensions)
     }
 
